@@ -47,6 +47,7 @@ def check(prog: Program, run: Run) -> None:
     _as(run, "C01.R2", "C08.R6", lambda r: c01._positioning(prog, r))
     from . import c02
     _as(run, "C02.R3", "C08.R6", lambda r: c02._emplace_paths(prog, r))
+    _as(run, "C02.R2", "C08.R6", lambda r: c02._sized_extent(prog, r))
 
 
 def _kw(call: ast.Call, name: str) -> Optional[ast.AST]:
